@@ -103,6 +103,107 @@ fn div_case(max_b: usize, max_q: usize) -> impl Strategy<Value = DivCase> {
     })
 }
 
+/// Dividends aimed at the correction step of the divide-and-conquer division (div/divide_conquer.rs,
+/// `rem -= q · rhs_lo` through the chunked multiply-accumulate kernels of mul/): the top part of the
+/// dividend is an exact multiple of the top m words of the divisor and the words below are zero, so the
+/// partial remainder is zero when the correction product is subtracted and its borrow runs through
+/// the whole remainder. Operands are assembled from chunks (random / only the low third / zero /
+/// all ones) aligned with the chunk size of that product.
+fn dc_case() -> impl Strategy<Value = DivCase> {
+    let sizes = prop_oneof![
+        6 => (66usize..=200),
+        6 => (201usize..=420),
+        5 => (421usize..=900),
+        1 => (2073usize..=2200),
+    ];
+    (sizes, any::<u64>(), 0u8..8, 0u8..6, 0u8..8, 0u8..4, any::<bool>(), any::<bool>()).prop_map(|(n, seed, msel, blo_kind, low_kind, ext, sa, sb)| {
+        let mut r = gen::SplitMix(seed ^ 0xd1c0);
+        // m = words of the quotient block, l = n - m = words of the low part of the divisor
+        let m = if n > 2048 {
+            n - 1 - r.below(24) as usize // schoolbook correction product against a >= 2048-word quotient
+        } else {
+            match msel {
+                0 => n - n / 2,                                     // the 3n/2n step of a 2n-word dividend
+                1 => n / 3,
+                2 => 2 * n / 3,
+                3 => 33 + r.below((n - 34) as u64) as usize,
+                4 => n - 1 - r.below(24.min(n as u64 - 34)) as usize,
+                5 => (n / 4).max(33),
+                6 => n - (n / 4).max(1),
+                _ => 33 + r.below((n - 34) as u64) as usize,
+            }
+        }
+        .clamp(33, n - 1);
+        let l = n - m;
+        let s = m.min(l).max(1); // chunk length of the correction product
+        let third = (s / 3).max(1);
+        let chunked = |r: &mut gen::SplitMix, len: usize| -> Vec<u64> {
+            let mut v = vec![0u64; len];
+            let mut at = 0;
+            while at < len {
+                let end = (at + s).min(len);
+                match r.below(8) {
+                    0 | 1 | 2 => v[at..end].iter_mut().for_each(|w| *w = r.next()),
+                    3 | 4 => v[at..(at + third).min(end)].iter_mut().for_each(|w| *w = r.next()),
+                    5 => {}
+                    6 => v[at..end].iter_mut().for_each(|w| *w = u64::MAX),
+                    _ => v[at] = r.next() | 1,
+                }
+                at = end;
+            }
+            v
+        };
+        // divisor = [b_lo (l words) | b_hi (m words)]
+        let mut b_hi: Vec<u64> = if r.below(4) == 0 { chunked(&mut r, m) } else { (0..m).map(|_| r.next()).collect() };
+        if r.below(8) != 0 {
+            b_hi[m - 1] |= 1 << 63;
+        } else if b_hi[m - 1] == 0 {
+            b_hi[m - 1] = 1 + r.below(1000);
+        }
+        let mut b_lo: Vec<u64> = match blo_kind {
+            0 => (0..l).map(|_| r.next()).collect(),
+            1 | 2 => {
+                let mut v = vec![0u64; l];
+                v[..third.min(l)].iter_mut().for_each(|w| *w = r.next());
+                v
+            }
+            3 => {
+                let mut v = vec![0u64; l];
+                let j = 1 + r.below(8.min(l as u64)) as usize;
+                v[..j].iter_mut().for_each(|w| *w = r.next());
+                v
+            }
+            4 => chunked(&mut r, l),
+            _ => gen::expand(l, (seed % 13) as u8, seed),
+        };
+        if r.below(2) == 0 && l > 1 {
+            b_lo[l - 1] = 0;
+        }
+        let mut q0 = chunked(&mut r, m);
+        if r.below(4) != 0 {
+            q0[m - 1] |= 1 << 63;
+        }
+        let nb_hi = Nat(b_hi.clone()).big();
+        let nq0 = Nat(q0).big();
+        let mut na: BigUint = (&nb_hi * &nq0) << (64 * l);
+        match low_kind {
+            0..=4 => {}
+            5 => na += BigUint::one(),
+            6 => na += Nat(gen::expand(1 + r.below(4) as usize, 1, seed)).big(),
+            _ => na += Nat((0..l).map(|_| r.next()).collect()).big(),
+        }
+        if ext == 0 && n <= 900 {
+            // make it the first 3n/2n step of a 2n-word dividend
+            let n_lo = n / 2;
+            na = (na << (64 * n_lo)) + Nat((0..n_lo).map(|_| r.next()).collect()).big();
+        }
+        let mut bw = b_lo;
+        bw.extend_from_slice(&b_hi);
+        let a = Nat::from_big(&na);
+        DivCase { a: Int { neg: sa && !a.is_zero(), mag: a }, b: Int { neg: sb, mag: Nat(bw) } }
+    })
+}
+
 fn eq_u(out: &mut Out, what: &str, got: Result<UBig, String>, want: &BigUint) {
     match got {
         Ok(g) => {
@@ -639,12 +740,13 @@ fn prim_div(c: &PrimDiv, ctx: &Ctx) -> Out {
 fn main() {
     let mut ck = Check::new(
         "C02",
-        "dividends built by construction a = q·b + r from divisor classes (1 word: 1, 2^k, MAX, random; 2 words incl. 2^64..2^127 and (un)normalised; 3-32; 33-34; 35-80; thorough to 2000 words) × quotient length classes (0, 1, 2, 3-30, 31-34, 35-70) × r ∈ {0, 1, b-1, random} plus top-word-correction dividends b·2^(64k)−1, all sign combinations; every division form (/, %, div_rem, Euclidean, assign, mixed UBig/IBig, primitives on either side with the extreme values of each type and operands of the same / neighbouring magnitude, the division traits of dashu-base on the primitive types themselves, is_multiple_of(_const), ConstDivisor) compared with the identity evaluated in num-bigint; zero divisors must panic. Non-trivial: divisor >= 2 words and quotient != 0 (primitive sub: both non-zero); distinct by case digest.",
+        "dividends built by construction a = q·b + r from divisor classes (1 word: 1, 2^k, MAX, random; 2 words incl. 2^64..2^127 and (un)normalised; 3-32; 33-34; 35-80; thorough to 2000 words) × quotient length classes (0, 1, 2, 3-30, 31-34, 35-70) × r ∈ {0, 1, b-1, random} plus top-word-correction dividends b·2^(64k)−1 and divide-and-conquer dividends (b_hi·q0)·2^(64·l) whose partial remainder is zero when the correction product q0·b_lo — chunked operands: random / low third only / zero / all ones, divisors of 66..900 and 2073..2200 words — is subtracted, all sign combinations; every division form (/, %, div_rem, Euclidean, assign, mixed UBig/IBig, primitives on either side with the extreme values of each type and operands of the same / neighbouring magnitude, the division traits of dashu-base on the primitive types themselves, is_multiple_of(_const), ConstDivisor) compared with the identity evaluated in num-bigint; zero divisors must panic. Non-trivial: divisor >= 2 words and quotient != 0 (primitive sub: both non-zero); distinct by case digest.",
     );
     let th = ck.thorough();
     ck.sub("division_small", (60_000, 1_200_000), || div_case(8, 8), division);
     ck.sub("division_medium", (25_000, 500_000), || div_case(80, 70), division);
     ck.sub("division_large", (if th { 0 } else { 300 }, 20_000), || div_case(2000, 2000), division);
+    ck.sub("division_dc_zero_remainder", (400, 12_000), dc_case, division);
     ck.sub("by_zero", (3_000, 30_000), || gen::int(Prof::Medium), by_zero);
     ck.sub(
         "prim_div",
